@@ -112,6 +112,78 @@ def _pos(rng, lo=0.1, hi=10.0):
     return _logu(rng, lo, hi)
 
 
+FLOOR = 1e-4
+
+
+def _accept(rng, draw, value, floor=FLOOR, tries=50):
+    """Redraw until the (dimensionless) theoretical value is >= floor.
+
+    Numerical guard only: CLARABEL returns values with an absolute accuracy of about 1e-8..1e-7 on normalised
+    problems, so a 1e-3 RELATIVE comparison is meaningless when the rate itself is below ~1e-4 (typically
+    mu/L close to 1 together with several iterations).  The entries using it say so in "notes".
+    """
+    kw = draw(rng)
+    for _ in range(tries):
+        try:
+            if value(kw) >= floor:
+                return kw
+        except (ZeroDivisionError, OverflowError, ValueError):
+            pass
+        kw = draw(rng)
+    return kw
+
+
+def _item_value(kw):
+    q = kw["mu"] / kw["L"]
+    A = 0.0
+    for _ in range(kw["n"]):
+        A = ((1 + q) * A + 2 * (1 + math.sqrt((1 + A) * (1 + q * A)))) / (1 - q) ** 2
+    return 1 / (1 + q * A)
+
+
+def _silver_sc_value(kw):
+    L, mu, n = kw["L"], kw["mu"], kw["n"]
+    tau = 1.0
+    for g in [i for i in range(n.bit_length()) if n & (1 << i)]:
+        z = mu / L
+        for _ in range(g):
+            eta = 1 - z
+            z = z * (eta + math.sqrt(1 + eta ** 2))
+        tau *= ((1 - z) / (1 + z)) ** 2
+    return tau
+
+
+def _inexact_rate(kw):
+    eps = kw.get("epsilon", 0.0)
+    Le, me = (1 + eps) * kw["L"], (1 - eps) * kw["mu"]
+    return ((Le - me) / (Le + me)) ** (2 * kw["n"])
+
+
+def _contraction_value(kw):
+    return max((1 - kw["mu"] * kw["gamma"]) ** 2, (1 - kw["L"] * kw["gamma"]) ** 2) ** kw["n"]
+
+
+def _quadratics_value(kw):
+    L, mu, gamma, n = kw["L"], kw["mu"], kw["gamma"], kw["n"]
+    alpha = min(1.0, max(mu / L, 1 / (L * gamma * (2 * n + 1))))
+    return 0.5 * max(alpha * (1 - alpha * L * gamma) ** (2 * n), (1 - L * gamma) ** (2 * n))
+
+
+def _lc_value(kw):
+    n, kg = kw["n"], kw["mug"] / kw["Lg"]
+    L = kw["Lg"] * kw["LM"] ** 2
+    Lg = L * kw["gamma"]
+    lo, hi = 0.0, 1.0 / (2 * n + 1)   # root of (1-(2n+1)x)(1-x)^(-2n-1) - 1 + kg on (0, 1/(2n+1))
+    for _ in range(200):
+        mid = 0.5 * (lo + hi)
+        if (1 - (2 * n + 1) * mid) * (1 - mid) ** (-2 * n - 1) - 1 + kg > 0:
+            lo = mid
+        else:
+            hi = mid
+    M = min(1.0, max(kw["muM"] / kw["LM"], math.sqrt(lo / kg / Lg)))
+    return 0.5 * max(kg * M ** 2 / (kg - 1 + (1 - kg * Lg * M ** 2) ** (-2 * n)), (1 - Lg) ** (2 * n))
+
+
 # ----------------------------------------------------------------------------------------------------------------
 # generators, in the order of tests/test_examples.py
 # ----------------------------------------------------------------------------------------------------------------
@@ -129,10 +201,14 @@ def gen_epsilon_subgradient_method(rng):
             "eps": float(rng.choice([0.0, rng.uniform(0.0, 2.0)])), "R": _pos(rng, 0.2, 5.0)}
 
 
-def gen_information_theoretic(rng):
+def _draw_information_theoretic(rng):
     L = _L(rng)
     q = 0.0 if rng.random() < 0.1 else _kappa(rng)
     return {"mu": q * L, "L": L, "n": _n(rng, 1, 4)}
+
+
+def gen_information_theoretic(rng):
+    return _accept(rng, _draw_information_theoretic, _item_value)
 
 
 def gen_gradient_descent(rng):
@@ -140,9 +216,9 @@ def gen_gradient_descent(rng):
     return {"L": L, "gamma": _unit(rng) / L, "n": _n(rng, 1, 5)}
 
 
-def gen_gradient_descent_lc(rng):
-    Lg = _L(rng)
-    LM = _pos(rng, 0.3, 3.0)
+def _draw_gradient_descent_lc(rng):
+    Lg = 1.0 if rng.random() < 0.2 else _logu(rng, 0.5, 3.0)
+    LM = 1.0 if rng.random() < 0.2 else _logu(rng, 0.7, 1.5)
     typeM = rng.choice(["gen", "sym", "skew"])
     muM = 0.0
     if typeM == "sym" and rng.random() < 0.7:
@@ -152,10 +228,18 @@ def gen_gradient_descent_lc(rng):
     return {"mug": mug, "Lg": Lg, "typeM": typeM, "muM": muM, "LM": LM, "gamma": gamma, "n": _n(rng, 1, 3)}
 
 
-def gen_gradient_descent_quadratics(rng):
+def gen_gradient_descent_lc(rng):
+    return _accept(rng, _draw_gradient_descent_lc, _lc_value, floor=1e-3)
+
+
+def _draw_gradient_descent_quadratics(rng):
     L = _L(rng)
     q = 0.0 if rng.random() < 0.15 else _kappa(rng)
     return {"mu": q * L, "L": L, "gamma": 2.0 * _unit(rng) / L, "n": _n(rng, 1, 4)}
+
+
+def gen_gradient_descent_quadratics(rng):
+    return _accept(rng, _draw_gradient_descent_quadratics, _quadratics_value)
 
 
 def gen_gradient_descent_silver_stepsize_convex(rng):
@@ -163,9 +247,13 @@ def gen_gradient_descent_silver_stepsize_convex(rng):
     return {"L": _L(rng), "n": n}
 
 
-def gen_gradient_descent_silver_stepsize_strongly_convex(rng):
+def _draw_silver_sc(rng):
     L = _L(rng)
     return {"L": L, "mu": _kappa(rng) * L, "n": _n(rng, 1, 8)}
+
+
+def gen_gradient_descent_silver_stepsize_strongly_convex(rng):
+    return _accept(rng, _draw_silver_sc, _silver_sc_value)
 
 
 def gen_cyclic_coordinate_descent_one_block(rng):
@@ -186,9 +274,13 @@ def gen_gradient_descent_qg_convex_decreasing(rng):
     return {"L": _L(rng), "n": _n(rng, 1, 5)}
 
 
-def gen_gradient_exact_line_search(rng):
+def _draw_gradient_exact_line_search(rng):
     L = _L(rng)
     return {"L": L, "mu": _kappa(rng) * L, "n": _n(rng, 1, 3)}
+
+
+def gen_gradient_exact_line_search(rng):
+    return _accept(rng, _draw_gradient_exact_line_search, _inexact_rate)
 
 
 def gen_subgradient_method(rng):
@@ -197,10 +289,16 @@ def gen_subgradient_method(rng):
     return {"M": M, "n": n, "gamma": 1.0 / (M * math.sqrt(n + 1))}
 
 
-def gen_subgradient_method_rsi_eb(rng):
+def _draw_subgradient_method_rsi_eb(rng):
     L = _L(rng)
     mu = _kappa(rng, 1e-2, 0.95) * L
-    return {"mu": mu, "L": L, "gamma": _unit(rng) * 2.0 * mu / L ** 2, "n": _n(rng, 1, 4)}
+    u = _unit(rng) if rng.random() < 0.85 else float(rng.uniform(1.0, 2.0))
+    return {"mu": mu, "L": L, "gamma": u * 2.0 * mu / L ** 2, "n": _n(rng, 1, 4)}
+
+
+def gen_subgradient_method_rsi_eb(rng):
+    return _accept(rng, _draw_subgradient_method_rsi_eb,
+                   lambda kw: (1 - 2 * kw["gamma"] * kw["mu"] + (kw["gamma"] * kw["L"]) ** 2) ** kw["n"])
 
 
 def gen_conjugate_gradient(rng):
@@ -211,14 +309,22 @@ def gen_conjugate_gradient_qg_convex(rng):
     return {"L": _L(rng), "n": _n(rng, 1, 4)}
 
 
+def _draw_inexact_gradient_exact_line_search(rng):
+    L = _L(rng)
+    return {"L": L, "mu": _kappa(rng) * L, "epsilon": _eps(rng), "n": _n(rng, 1, 3)}
+
+
 def gen_inexact_gradient_exact_line_search(rng):
+    return _accept(rng, _draw_inexact_gradient_exact_line_search, _inexact_rate)
+
+
+def _draw_inexact_gradient_descent(rng):
     L = _L(rng)
     return {"L": L, "mu": _kappa(rng) * L, "epsilon": _eps(rng), "n": _n(rng, 1, 3)}
 
 
 def gen_inexact_gradient_descent(rng):
-    L = _L(rng)
-    return {"L": L, "mu": _kappa(rng) * L, "epsilon": _eps(rng), "n": _n(rng, 1, 3)}
+    return _accept(rng, _draw_inexact_gradient_descent, _inexact_rate)
 
 
 def gen_proximal_point(rng):
@@ -229,9 +335,13 @@ def gen_optimized_gradient_method(rng):
     return {"L": _L(rng), "n": _n(rng, 1, 4)}
 
 
-def gen_inexact_gradient(rng):
+def _draw_inexact_gradient(rng):
     L = _L(rng)
     return {"L": L, "mu": _kappa(rng) * L, "epsilon": _eps(rng, hi_closed=True), "n": _n(rng, 1, 2)}
+
+
+def gen_inexact_gradient(rng):
+    return _accept(rng, _draw_inexact_gradient, _inexact_rate)
 
 
 def gen_frank_wolfe_low_dim(rng):
@@ -298,9 +408,14 @@ def gen_accelerated_proximal_point(rng):
     return {"A0": _pos(rng), "gammas": gammas, "n": n}
 
 
-def gen_triple_momentum(rng):
+def _draw_triple_momentum(rng):
     L = _L(rng)
     return {"mu": _kappa(rng) * L, "L": L, "n": _n(rng, 1, 4)}
+
+
+def gen_triple_momentum(rng):
+    return _accept(rng, _draw_triple_momentum,
+                   lambda kw: (1 - math.sqrt(kw["mu"] / kw["L"])) ** (2 * kw["n"]) * kw["L"] / kw["mu"] / 2)
 
 
 def gen_robust_momentum(rng):
@@ -345,7 +460,14 @@ def gen_douglas_rachford_splitting(rng):
 
 def gen_improved_interior_algorithm(rng):
     L = _L(rng)
-    mu = 1.0 if rng.random() < 0.5 else _pos(rng, 0.2, 5.0)
+    mu = 1.0 if rng.random() < 0.5 else float(rng.uniform(1.0, 5.0))
+    return {"L": L, "mu": mu, "c": _pos(rng), "lam": 1 / L, "n": _n(rng, 1, 4)}
+
+
+def gen_improved_interior_algorithm_lam_sigma_over_L(rng):
+    """[1, Thm 5.2] setting lam = mu / L with any mu > 0: the returned formula (no mu) fails for mu < 1."""
+    L = _L(rng)
+    mu = _pos(rng, 0.2, 5.0)
     return {"L": L, "mu": mu, "c": _pos(rng), "lam": mu / L, "n": _n(rng, 1, 4)}
 
 
@@ -359,14 +481,24 @@ def gen_no_lips_in_function_value(rng):
     return {"L": L, "gamma": _unit(rng) / L, "n": _n(rng, 1, 4)}
 
 
-def gen_proximal_gradient(rng):
+def _draw_proximal_gradient(rng):
     L = _L(rng)
-    return {"L": L, "mu": _kappa(rng) * L, "gamma": 2.0 * _unit(rng) / L, "n": _n(rng, 1, 3)}
+    u = 2.0 * _unit(rng) if rng.random() < 0.85 else float(rng.uniform(2.0, 3.0))
+    return {"L": L, "mu": _kappa(rng) * L, "gamma": u / L, "n": _n(rng, 1, 3)}
+
+
+def gen_proximal_gradient(rng):
+    return _accept(rng, _draw_proximal_gradient, _contraction_value)
+
+
+def _draw_proximal_gradient_quadratics(rng):
+    L = _L(rng)
+    u = 2.0 * _unit(rng) if rng.random() < 0.85 else float(rng.uniform(2.0, 3.0))
+    return {"L": L, "mu": _kappa(rng) * L, "gamma": u / L, "n": _n(rng, 1, 3)}
 
 
 def gen_proximal_gradient_quadratics(rng):
-    L = _L(rng)
-    return {"L": L, "mu": _kappa(rng) * L, "gamma": 2.0 * _unit(rng) / L, "n": _n(rng, 1, 3)}
+    return _accept(rng, _draw_proximal_gradient_quadratics, _contraction_value)
 
 
 def gen_three_operator_splitting(rng):
@@ -378,6 +510,12 @@ def gen_three_operator_splitting(rng):
 def gen_gradient_descent_non_convex(rng):
     L = _L(rng)
     return {"L": L, "gamma": _unit(rng) / L, "n": _n(rng, 1, 5)}
+
+
+def gen_gradient_descent_non_convex_restricted(rng):
+    """gamma = 1/L only: the only step size at which 4L/(3n) is the worst case."""
+    L = _L(rng)
+    return {"L": L, "gamma": 1 / L, "n": _n(rng, 1, 5)}
 
 
 def gen_no_lips_1(rng):
@@ -400,7 +538,7 @@ def gen_saga(rng):
 def gen_sgd(rng):
     L = _L(rng)
     v = 0.0 if rng.random() < 0.15 else _logu(rng, 0.05, 5.0)
-    return {"L": L, "mu": _kappa(rng) * L, "gamma": 1 / L, "v": v, "R": _pos(rng, 0.2, 5.0), "n": _n(rng, 1, 4)}
+    return {"L": L, "mu": _kappa(rng) * L, "gamma": 1 / L, "v": v, "R": _pos(rng, 0.2, 5.0), "n": _n(rng, 2, 4)}
 
 
 def gen_sgd_overparametrized(rng):
@@ -432,7 +570,8 @@ def gen_proximal_point_method_operators(rng):
 
 
 def gen_wc_optimal_strongly_monotone_proximal_point_operators(rng):
-    return {"n": _n(rng, 1, 4), "mu": _logu(rng, 1e-2, 2.0)}
+    return _accept(rng, lambda r: {"n": _n(r, 1, 4), "mu": _logu(r, 1e-3, 2.0)},
+                   lambda kw: (2 * kw["mu"] / ((1 + 2 * kw["mu"]) ** kw["n"] - 1)) ** 2)
 
 
 def gen_douglas_rachford_splitting_operators(rng):
@@ -482,13 +621,18 @@ def gen_wc_inconsistent_halpern_iteration(rng):
     return {"n": _n(rng, 1, 6)}
 
 
-def gen_wc_optimal_contractive_halpern_iteration(rng):
+def _draw_oc_halpern(rng):
     r = rng.random()
     if r < 0.25:
-        gamma = 1.0 + _logu(rng, 1e-2, 0.1)
+        gamma = 1.0 + _logu(rng, 1e-3, 0.1)
     else:
         gamma = float(rng.uniform(1.05, 3.0))
     return {"n": _n(rng, 1, 5), "gamma": gamma}
+
+
+def gen_wc_optimal_contractive_halpern_iteration(rng):
+    return _accept(rng, _draw_oc_halpern, lambda kw: (1 + 1 / kw["gamma"]) ** 2 * (
+        (kw["gamma"] - 1) / (kw["gamma"] ** (kw["n"] + 1) - 1)) ** 2)
 
 
 def gen_gradient_descent_lyapunov_1(rng):
@@ -510,14 +654,26 @@ def gen_accelerated_gradient_method(rng):
 def gen_polyak_steps_in_distance_to_optimum(rng):
     L = _L(rng)
     mu = _kappa(rng) * L
-    u = float(rng.uniform(0.02, 0.98)) if rng.random() < 0.7 else float(rng.choice([0.02, 0.05, 0.95, 0.98]))
+    r = rng.random()
+    if r < 0.7:
+        u = float(rng.uniform(0.02, 0.98))
+    elif r < 0.9:
+        u = float(rng.choice([0.02, 0.05, 0.95, 0.98]))
+    else:
+        u = float(rng.choice([0.0, 1.0]))  # exact ends: theoretical value 0
     return {"L": L, "mu": mu, "gamma": 1 / L + u * (1 / mu - 1 / L)}
 
 
 def gen_polyak_steps_in_function_value(rng):
     L = _L(rng)
     mu = _kappa(rng) * L
-    u = float(rng.uniform(0.02, 0.98)) if rng.random() < 0.7 else float(rng.choice([0.02, 0.05, 0.95, 0.98]))
+    r = rng.random()
+    if r < 0.7:
+        u = float(rng.uniform(0.02, 0.98))
+    elif r < 0.9:
+        u = float(rng.choice([0.02, 0.05, 0.95, 0.98]))
+    else:
+        u = float(rng.choice([0.0, 1.0]))  # exact ends: theoretical value 0
     return {"L": L, "mu": mu, "gamma": 1 / L + u * ((2 * L - mu) / L ** 2 - 1 / L)}
 
 
@@ -539,7 +695,7 @@ def gen_partially_inexact_douglas_rachford_splitting(rng):
 
 
 def gen_relatively_inexact_proximal_point_algorithm(rng):
-    return {"n": _n(rng, 1, 4), "gamma": _logu(rng, 0.1, 10.0), "sigma": _eps(rng)}
+    return {"n": _n(rng, 1, 4), "gamma": _logu(rng, 0.1, 10.0), "sigma": _eps(rng, hi_closed=True)}
 
 
 def gen_accelerated_gradient_flow_convex(rng):
@@ -558,9 +714,14 @@ def gen_gradient_flow_strongly_convex(rng):
     return {"mu": _logu(rng, 1e-2, 10.0)}
 
 
-def gen_gradient_descent_contraction(rng):
+def _draw_gradient_descent_contraction(rng):
     L = _L(rng)
-    return {"L": L, "mu": _kappa(rng) * L, "gamma": 2.0 * _unit(rng) / L, "n": _n(rng, 1, 4)}
+    u = 2.0 * _unit(rng) if rng.random() < 0.85 else float(rng.uniform(2.0, 3.0))
+    return {"L": L, "mu": _kappa(rng) * L, "gamma": u / L, "n": _n(rng, 1, 4)}
+
+
+def gen_gradient_descent_contraction(rng):
+    return _accept(rng, _draw_gradient_descent_contraction, _contraction_value)
 
 
 # ----------------------------------------------------------------------------------------------------------------
@@ -575,6 +736,7 @@ def _E(name, module, func, kind, base, gen, range_doc, cost, notes="", tol="rel"
 
 
 _SQ = math.sqrt
+_FL = "gen redraws when the (dimensionless) theoretical value is below 1e-4: numerical guard only, see _accept"
 
 EXAMPLES = [
     _E("optimized_gradient", _U, "wc_optimized_gradient", "tight",
@@ -590,7 +752,7 @@ EXAMPLES = [
     _E("information_theoretic", _U, "wc_information_theoretic", "tight",
        {"mu": .01, "L": 3, "n": 3}, gen_information_theoretic,
        "0 <= mu < L ('mu is possibly 0'), n >= 1 (docstring: tight, [1, Thm 3])", "cheap",
-       "mu = 0 gives theory = 1 (q = 0); mu = L divides by zero in the A_t recursion"),
+       "mu = 0 gives theory = 1 (q = 0); mu = L divides by zero in the A_t recursion; " + _FL),
     _E("gradient_descent", _U, "wc_gradient_descent", "tight",
        {"L": 3, "gamma": 1 / 3, "n": 4}, gen_gradient_descent,
        "gamma in (0, 1/L], L > 0, n >= 1 (docstring: 'When gamma <= 1/L, the tight theoretical guarantee')", "cheap",
@@ -603,8 +765,11 @@ EXAMPLES = [
        "No wrapper/solver argument and problem.solve() is called without solver: always the default (SCS here) unless "
        "call(..., force_solver=True). The test tolerance is 2e-3 relative. The test pins muM=0.1 also for 'gen' and "
        "'skew' although the docstring says muM must be 0 there (the class ignores it, the formula uses it only "
-       "through the projection of M*). mug = 0 divides by zero (h0 = x / kappa_g). The formula relies on "
-       "scipy fsolve started at 0.5.",
+       "through the projection of M*). mug = 0 (documented as admissible) raises ZeroDivisionError (h0 = x / "
+       "kappa_g), see SUSPECTS. The formula relies on scipy fsolve started at 0.5. RESTRICTED FOR NUMERICAL REASONS: "
+       "gen keeps Lg in [0.5, 3], LM in [0.7, 1.5] and redraws when the theoretical value is below 1e-3 L; with worse "
+       "scalings (e.g. Lg LM^2 ~ 0.1) CLARABEL returns 'optimal_inaccurate' and pepit_tau is off by up to 0.7% while "
+       "the rescaled problem (Lg = LM = 1, gamma L fixed) agrees to 3e-4.",
        bases=[{"mug": .3, "Lg": 3, "typeM": t, "muM": 0.1, "LM": 1., "gamma": 1 / 3, "n": 3}
               for t in ("gen", "sym", "skew")],
        forwards_solver=False),
@@ -612,7 +777,7 @@ EXAMPLES = [
        {"mu": .3, "L": 3, "gamma": 1 / 3, "n": 4}, gen_gradient_descent_quadratics,
        "gamma in (0, 2/L], 0 <= mu <= L (docstring: tight conjecture [1, Eq. (4.17)])", "cheap",
        "Accepts wrapper/solver but calls problem.solve(verbose=...) without them: always the default solver (SCS "
-       "here) unless call(..., force_solver=True).", forwards_solver=False),
+       "here) unless call(..., force_solver=True). " + _FL, forwards_solver=False),
     _E("gradient_descent_silver_stepsize_convex", _U, "wc_gradient_descent_silver_stepsize_convex", "upper",
        {"L": 2.8, "n": 2}, gen_gradient_descent_silver_stepsize_convex,
        "L > 0, n = 2^k - 1 (other n are reset, with a warning, to the largest 2^k - 1 below) (docstring, [1, Thm 1.1])",
@@ -622,7 +787,8 @@ EXAMPLES = [
        "0 < mu < L, n >= 1 (n not a power of 2 is decomposed in powers of 2, with a warning) (docstring + code)",
        "medium",
        "The docstring states exponential bounds of [1, Thm 4.1]; the returned theoretical_tau is instead the product "
-       "of ((1 - z)/(1 + z))^2 over the glued blocks, which the test asserts to be tight (n = 17 = 16 + 1)."),
+       "of ((1 - z)/(1 + z))^2 over the glued blocks, which the test asserts to be tight (n = 17 = 16 + 1). "
+       + _FL),
     _E("cyclic_coordinate_descent_one_block", _U, "wc_cyclic_coordinate_descent", "none",
        {"L": [1.], "n": 9}, gen_cyclic_coordinate_descent_one_block,
        "L list of positive floats (one per block), n >= 1 (docstring)", "cheap",
@@ -642,7 +808,7 @@ EXAMPLES = [
        "L > 0, n >= 1 (docstring: tight, conjectured [1, Conj. A.3])", "cheap"),
     _E("gradient_exact_line_search", _U, "wc_gradient_exact_line_search", "tight",
        {"L": 3, "mu": .1, "n": 1}, gen_gradient_exact_line_search,
-       "0 < mu < L, n >= 1 (docstring: tight, [1, Thm 1.2])", "cheap"),
+       "0 < mu < L, n >= 1 (docstring: tight, [1, Thm 1.2])", "cheap", _FL),
     _E("subgradient_method", _U, "wc_subgradient_method", "tight",
        {"M": 2, "n": 10, "gamma": 1 / (_SQ(10 + 1) * 2)}, gen_subgradient_method,
        "M > 0, n >= 1, gamma = 1/(M sqrt(n+1)) (IMPLICIT: the docstring states no condition on gamma, but the value "
@@ -651,8 +817,9 @@ EXAMPLES = [
        "depend on gamma and is not the worst case (see SUSPECTS)."),
     _E("subgradient_method_rsi_eb", _U, "wc_subgradient_method_rsi_eb", "tight",
        {"mu": .1, "L": 1, "gamma": .1, "n": 4}, gen_subgradient_method_rsi_eb,
-       "0 < mu <= L, gamma in (0, 2 mu / L^2] (docstring gives no range for gamma; this is the range where the rate "
-       "1 - 2 gamma mu + L^2 gamma^2 is <= 1), n >= 1", "cheap"),
+       "0 < mu <= L, gamma > 0 (docstring gives no range for gamma; gen draws gamma in (0, 2 mu / L^2] where the "
+       "rate 1 - 2 gamma mu + L^2 gamma^2 is <= 1 and, with probability 0.15, up to twice that), n >= 1", "cheap",
+       _FL),
     _E("conjugate_gradient", _U, "wc_conjugate_gradient", "tight",
        {"L": 3, "n": 2}, gen_conjugate_gradient, "L > 0, n >= 1 (docstring: tight, [1], [2, Thm 3])", "medium"),
     _E("conjugate_gradient_qg_convex", _U, "wc_conjugate_gradient_qg_convex", "tight",
@@ -660,11 +827,12 @@ EXAMPLES = [
        "L > 0, n >= 1 (docstring: tight, [2, Thm 2.3/2.4])", "medium"),
     _E("inexact_gradient_exact_line_search", _U, "wc_inexact_gradient_exact_line_search", "tight",
        {"L": 3, "mu": .1, "epsilon": .1, "n": 2}, gen_inexact_gradient_exact_line_search,
-       "0 < mu < L, epsilon in [0, 1) (docstring: 'with 0 <= epsilon < 1'; tight [1, Thm 5.1]), n >= 1", "cheap"),
+       "0 < mu < L, epsilon in [0, 1) (docstring: 'with 0 <= epsilon < 1'; tight [1, Thm 5.1]), n >= 1", "cheap",
+       _FL),
     _E("inexact_gradient_descent", _U, "wc_inexact_gradient_descent", "tight",
        {"L": 3, "mu": .1, "epsilon": .1, "n": 2}, gen_inexact_gradient_descent,
        "0 < mu < L, epsilon in [0, 1) (range of epsilon not stated in this docstring; taken from the twin examples "
-       "and [1, Thm 5.3]), n >= 1", "cheap"),
+       "and [1, Thm 5.3]), n >= 1", "cheap", _FL),
     _E("proximal_point", _U, "wc_proximal_point", "tight",
        {"gamma": .1, "n": 3}, gen_proximal_point, "gamma > 0, n >= 1 (docstring: tight, [1, Thm 4.1])", "cheap"),
     _E("optimized_gradient_method", _LD, "wc_optimized_gradient", "tight",
@@ -675,11 +843,13 @@ EXAMPLES = [
     _E("inexact_gradient", _LD, "wc_inexact_gradient", "tight",
        {"L": 3, "mu": .1, "epsilon": .1, "n": 2}, gen_inexact_gradient,
        "0 < mu < L, epsilon in [0, 1] (docstring: 'with 0 <= epsilon <= 1'; tight [1, Thm 5.3]), n >= 1", "medium",
-       "low-dimensional variant: 'logdet10' heuristic (10 extra solves)"),
+       "low-dimensional variant: 'logdet10' heuristic (10 extra solves). CLARABEL raises SolverError inside the "
+       "heuristic solves for roughly one draw out of three (any n). " + _FL),
     _E("frank_wolfe_low_dim", _LD, "wc_frank_wolfe", "upper",
        {"L": 1., "D": 1., "n": 10}, gen_frank_wolfe_low_dim,
        "L > 0, D > 0, n >= 1 (docstring: upper, [2, Thm 1])", "medium",
-       "low-dimensional variant: 'logdet6' heuristic; CLARABEL may fail in the heuristic solves for larger n"),
+       "low-dimensional variant: 'logdet6' heuristic; CLARABEL raises SolverError inside the heuristic solves for "
+       "roughly one draw out of four (any n); the pinned n = 10 takes ~10 s"),
     _E("proximal_point_low_dim", _LD, "wc_proximal_point", "tight",
        {"alpha": 2.2, "n": 11}, gen_proximal_point_low_dim,
        "alpha > 0, n >= 1 (docstring: tight, [1, Sec. 4])", "cheap", "low-dimensional variant: 'trace' heuristic"),
@@ -689,15 +859,18 @@ EXAMPLES = [
     _E("gradient_descent_non_convex_low_dim", _LD, "wc_gradient_descent", "tight",
        {"L": 1, "gamma": 1, "n": 5}, gen_gradient_descent_non_convex_low_dim,
        "gamma in (0, 1/L] (docstring: 'When gamma <= 1/L, an empirically tight ... 4/3 L/n')", "medium",
-       "low-dimensional variant: 'logdet2' heuristic. The formula 4L/(3n) does not depend on gamma and only matches "
-       "at gamma = 1/L (see SUSPECTS)."),
+       "low-dimensional variant: 'logdet2' heuristic (occasional CLARABEL SolverError). The formula 4L/(3n) does "
+       "not depend on gamma and only matches at gamma = 1/L (see SUSPECTS); gen keeps the documented range, "
+       "gen_restricted draws gamma = 1/L only.", gen_restricted=gen_gradient_descent_non_convex_restricted),
     _E("alternate_projections_low_dim", _LD, "wc_alternate_projections", "none",
        {"n": 9}, gen_alternate_projections_low_dim, "n >= 1 (docstring)", "medium",
-       "theoretical_tau is None; the test checks wc(n=10) <= wc(n=9). 'logdet1' heuristic.",
+       "theoretical_tau is None; the test checks wc(n=10) <= wc(n=9). 'logdet1' heuristic: CLARABEL raises "
+       "SolverError at both pinned sizes (n = 9, 10) and sometimes at smaller n.",
        bases=[{"n": 9}, {"n": 10}], monotone_in="n"),
     _E("averaged_projections_low_dim", _LD, "wc_averaged_projections", "none",
        {"n": 10}, gen_averaged_projections_low_dim, "n >= 1 (docstring)", "medium",
-       "theoretical_tau is None; the test checks wc(n=11) <= wc(n=10). 'logdet1' heuristic.",
+       "theoretical_tau is None; the test checks wc(n=11) <= wc(n=10). 'logdet1' heuristic: CLARABEL raises "
+       "SolverError at the pinned n = 11.",
        bases=[{"n": 10}, {"n": 11}], monotone_in="n"),
     _E("dykstra_low_dim", _LD, "wc_dykstra", "none",
        {"n": 8}, gen_dykstra_low_dim, "n >= 1 (docstring)", "medium",
@@ -731,7 +904,7 @@ EXAMPLES = [
        {"mu": .1, "L": 1, "n": 4}, gen_triple_momentum,
        "0 < mu < L, n >= 1 (docstring: 'upper (empirically tight)', [1, Thm 1, eq. 4])", "cheap",
        "docstring formula is rho^(2(n+1)) L kappa / 2, code returns rho^(2n) L kappa / 2; the test asserts tightness "
-       "of the code value"),
+       "of the code value (see SUSPECTS, doc_vs_code). " + _FL),
     _E("robust_momentum", _U, "wc_robust_momentum", "tight",
        {"mu": .1, "L": 1, "lam": .5}, gen_robust_momentum,
        "0 < mu < L, lam in [0, 1] (docstring: lam=1 gradient descent, lam=0 triple momentum; 'empirically tight')",
@@ -771,28 +944,34 @@ EXAMPLES = [
     _E("douglas_rachford_splitting", _C, "wc_douglas_rachford_splitting", "tight",
        {"L": 1, "alpha": 1, "theta": 1, "n": 10}, gen_douglas_rachford_splitting,
        "L = alpha = theta = 1 and 1 <= n <= 10 only (docstring: comparison with PESTO values)", "medium",
-       "theoretical_tau is a 4-digit table (relative rounding error up to ~2e-3 for the small entries) and is None "
-       "outside L = alpha = theta = 1, 0 < n <= 10"),
+       "theoretical_tau is a 4-digit table (relative rounding error up to ~2e-3 for the small entries: n = 7 is off "
+       "by 1.26e-3, n = 8 by 0.95e-3, see SUSPECTS) and is None outside L = alpha = theta = 1, 0 < n <= 10",
+       rtol_hint=2.5e-3),
     _E("improved_interior_algorithm", _C, "wc_improved_interior_algorithm", "upper",
        {"L": 1, "mu": 1, "c": 1, "lam": 1, "n": 5}, gen_improved_interior_algorithm,
-       "L > 0, mu > 0 (strong convexity of the kernel h), c > 0, lam = mu / L, n >= 1 (the docstring gives no range; "
-       "[1, Thm 5.2] is stated for lam = sigma / L)", "medium",
-       "docstring formula 4L/(c n^2), code returns 4L/(c (n+1)^2). The formula has no dependence on mu."),
-    _E("no_lips_in_bregman_divergence", _C, "wc_no_lips_in_bregman_divergence", "upper",
+       "L > 0, c > 0, lam = 1/L, mu >= 1, n >= 1 (IMPLICIT: the docstring gives no range at all; the formula contains "
+       "neither lam nor mu, the test pins lam = 1/L and mu = 1; [1, Thm 5.2] is stated for lam = sigma/L)", "medium",
+       "RESTRICTED to lam = 1/L <= mu/L. pepit_tau equals c_n/c of the scalar recursion (depends on c, lam, n only) as "
+       "long as lam <= mu/L; it is unbounded (None) for lam well above mu/L. With the setting of the cited theorem, "
+       "lam = mu/L, the returned value is NOT an upper bound when mu < 1 (see SUSPECTS; generator "
+       "gen_improved_interior_algorithm_lam_sigma_over_L). Docstring formula 4L/(c n^2), code 4L/(c (n+1)^2).",
+       gen_alt=gen_improved_interior_algorithm_lam_sigma_over_L),
+    _E("no_lips_in_bregman_divergence", _C, "wc_no_lips_in_bregman_divergence", "tight",
        {"L": 0.1, "gamma": 1 / 0.1, "n": 3}, gen_no_lips_in_bregman_divergence,
        "gamma in (0, 1/L], n >= 2 (docstring: upper [2, Prop. 4] 'for any gamma <= 1/L. It is empirically tight')",
-       "medium", "n = 1 divides by zero (2/(n(n-1))). The test asserts equality at gamma = 1/L."),
+       "medium", "n = 1 divides by zero (2/(n(n-1))). Documented as an upper bound that 'is empirically tight'; "
+       "the test asserts equality at gamma = 1/L and equality is observed for every gamma <= 1/L."),
     _E("no_lips_in_function_value", _C, "wc_no_lips_in_function_value", "tight",
        {"L": 1, "gamma": 1 / 2, "n": 3}, gen_no_lips_in_function_value,
        "gamma in (0, 1/L], n >= 1 (docstring: tight [2, Thm 1] 'for any gamma <= 1/L')", "cheap"),
     _E("proximal_gradient", _C, "wc_proximal_gradient", "tight",
        {"L": 1, "mu": .1, "gamma": 1, "n": 2}, gen_proximal_gradient,
-       "0 < mu < L, gamma in (0, 2/L] (docstring gives no range for gamma; this is the contraction range), n >= 1",
-       "cheap"),
+       "0 < mu < L, gamma > 0 (docstring gives no range for gamma; gen draws gamma in (0, 2/L], the contraction "
+       "range, and, with probability 0.15, in (2/L, 3/L)), n >= 1", "cheap", _FL),
     _E("proximal_gradient_quadratics", _C, "wc_proximal_gradient_quadratics", "tight",
        {"L": 1, "mu": .1, "gamma": 1, "n": 2}, gen_proximal_gradient_quadratics,
-       "0 < mu < L, gamma in (0, 2/L] (docstring gives no range for gamma; this is the contraction range), n >= 1",
-       "cheap"),
+       "0 < mu < L, gamma > 0 (docstring gives no range for gamma; gen draws gamma in (0, 2/L], the contraction "
+       "range, and, with probability 0.15, in (2/L, 3/L)), n >= 1", "cheap", _FL),
     _E("three_operator_splitting", _C, "wc_three_operator_splitting", "none",
        {"mu1": 0.1, "L1": 10, "L3": 1, "alpha": 1, "theta": 1, "n": 1}, gen_three_operator_splitting,
        "0 < mu1 < L1, L3 > 0, alpha > 0, theta in (0, 2), n >= 1 (docstring; no theoretical value)", "cheap",
@@ -803,7 +982,9 @@ EXAMPLES = [
     _E("gradient_descent_non_convex", _NC, "wc_gradient_descent", "tight",
        {"L": 1, "gamma": 1, "n": 5}, gen_gradient_descent_non_convex,
        "gamma in (0, 1/L] (docstring: 'When gamma <= 1/L, an empirically tight ... 4/3 L/n'), n >= 1", "cheap",
-       "The formula 4L/(3n) does not depend on gamma and only matches at gamma = 1/L (see SUSPECTS)."),
+       "The formula 4L/(3n) does not depend on gamma and only matches at gamma = 1/L (see SUSPECTS); gen keeps the "
+       "documented range, gen_restricted draws gamma = 1/L only.",
+       gen_restricted=gen_gradient_descent_non_convex_restricted),
     _E("no_lips_1", _NC, "wc_no_lips_1", "tight",
        {"L": 1, "gamma": 1 / 2, "n": 5}, gen_no_lips_1,
        "gamma in (0, 1/L) (formula gamma/(n(1 - L gamma)), [1, Prop. 4.1]; Args: 'equal to 1/(2L) for guarantee'), "
@@ -818,8 +999,10 @@ EXAMPLES = [
        "n is the number of functions (Gram size grows as 2n + ...); the test asserts equality"),
     _E("sgd", _S, "wc_sgd", "tight",
        {"L": 1, "mu": 0.1, "gamma": 1, "v": 1, "R": 2, "n": 5}, gen_sgd,
-       "gamma = 1/L only (docstring: 'when gamma = 1/L'), 0 < mu < L, v >= 0, R > 0, n >= 1 functions", "cheap",
-       "empirically tight (PESTO)"),
+       "gamma = 1/L only (docstring: 'when gamma = 1/L'), 0 < mu < L, v >= 0, R > 0, n >= 2 functions", "cheap",
+       "empirically tight (PESTO). RESTRICTED to n >= 2: with a single function the variance at x* is necessarily 0 "
+       "and pepit_tau is smaller than the formula although the docstring says the guarantee does not depend on n "
+       "(see SUSPECTS)."),
     _E("sgd_overparametrized", _S, "wc_sgd_overparametrized", "tight",
        {"L": 1, "mu": 0.1, "gamma": 1, "n": 5}, gen_sgd_overparametrized,
        "gamma = 1/L only (docstring: 'when gamma = 1/L'), 0 < mu < L, n >= 1 functions", "cheap"),
@@ -845,7 +1028,7 @@ EXAMPLES = [
        "tight", {"n": 3, "mu": 0.23}, gen_wc_optimal_strongly_monotone_proximal_point_operators,
        "mu > 0, n >= 1 (docstring Args: 'mu >= 0'; tight [1, Thm 3.2, Cor. 4.2])", "cheap",
        "RESTRICTED to mu > 0: the documented end mu = 0 raises ZeroDivisionError (phi() and the formula), "
-       "see SUSPECTS"),
+       "see SUSPECTS. " + _FL),
     _E("douglas_rachford_splitting_operators", _MI, "wc_douglas_rachford_splitting", "tight",
        {"L": 1, "mu": 0.1, "alpha": 1.3, "theta": 0.9}, gen_douglas_rachford_splitting_operators,
        "L > 0, mu > 0, alpha > 0, theta in (0, 2) (docstring: compares with [2, Thm 4.3]; no range stated)", "cheap",
@@ -882,7 +1065,7 @@ EXAMPLES = [
        {"n": 3, "gamma": 1.13}, gen_wc_optimal_contractive_halpern_iteration,
        "gamma > 1, n >= 1 (docstring Args: 'gamma >= 1'; tight [1, Cor. 3.3, Thm 4.1])", "cheap",
        "RESTRICTED to gamma > 1: the documented end gamma = 1 raises ZeroDivisionError (phi and the formula), "
-       "see SUSPECTS"),
+       "see SUSPECTS. " + _FL),
     _E("gradient_descent_lyapunov_1", _PF, "wc_gradient_descent_lyapunov_1", "tight",
        {"L": 1, "gamma": 1, "n": 10}, gen_gradient_descent_lyapunov_1,
        "gamma = 1/L exactly (docstring: 'when gamma = 1/L'; code tests gamma == 1 / L), n >= 0", "cheap",
@@ -900,14 +1083,14 @@ EXAMPLES = [
     _E("polyak_steps_in_distance_to_optimum", _AD, "wc_polyak_steps_in_distance_to_optimum", "tight",
        {"L": 1, "mu": 0.1, "gamma": 2}, gen_polyak_steps_in_distance_to_optimum,
        "gamma in [1/L, 1/mu] (docstring, [1, Prop. 1]; theory = 0 'otherwise'), 0 < mu < L", "cheap",
-       "gen stays at relative distance >= 2% from both ends where the rate vanishes (theory = 0 makes a relative "
-       "comparison meaningless; the test uses the absolute tolerance 5e-5). Outside the interval the Polyak "
-       "constraint cannot be met and the PEP is infeasible.", tol="abs"),
+       "the rate vanishes at both ends (theory = 0 makes a relative comparison meaningless; the test uses the "
+       "absolute tolerance 5e-5); gen hits the exact ends with probability 0.1. At the ends and outside the interval "
+       "pepit_tau is ~1e-8.", tol="abs"),
     _E("polyak_steps_in_function_value", _AD, "wc_polyak_steps_in_function_value", "tight",
        {"L": 1, "mu": 0.1, "gamma": 2}, gen_polyak_steps_in_function_value,
        "gamma in [1/L, (2L - mu)/L^2] (docstring, [1, Prop. 2]; theory = 0 'otherwise'), 0 < mu < L", "cheap",
-       "the pinned gamma = 2/L is OUTSIDE the interval (theory 0). gen stays at relative distance >= 2% from both "
-       "ends; absolute tolerance 5e-5 in the test.", tol="abs"),
+       "the pinned gamma = 2/L is OUTSIDE the interval (theory 0, pepit ~1e-10). gen hits the exact ends (theory 0) "
+       "with probability 0.1; absolute tolerance 5e-5 in the test.", tol="abs"),
     _E("accelerated_inexact_forward_backward", _IP, "wc_accelerated_inexact_forward_backward", "upper",
        {"L": 10, "zeta": .87, "n": 10}, gen_accelerated_inexact_forward_backward,
        "zeta in (0, 1) (docstring), L > 0, n >= 1 (upper bound [1, Cor. 3.5])", "medium",
@@ -918,7 +1101,7 @@ EXAMPLES = [
        "sigma in [0, 1)), n >= 1", "medium", "signature order is (mu, L, n, gamma, sigma)"),
     _E("relatively_inexact_proximal_point_algorithm", _IP, "wc_relatively_inexact_proximal_point_algorithm", "upper",
        {"n": 5, "gamma": 2, "sigma": 0.3}, gen_relatively_inexact_proximal_point_algorithm,
-       "gamma > 0, sigma in [0, 1) (docstring: 'sigma >= 0'; the formula needs sigma <= 1), n >= 1", "medium",
+       "gamma > 0, sigma in [0, 1] (docstring: 'sigma >= 0'; the formula needs sigma <= 1), n >= 1", "medium",
        "'(empirical) upper bound'; the test asserts wc <= theory"),
     _E("accelerated_gradient_flow_convex", _CT, "wc_accelerated_gradient_flow_convex", "tight",
        {"t": 3.4}, gen_accelerated_gradient_flow_convex, "t > 0 (docstring: tight, d/dt V <= 0)", "cheap",
@@ -939,8 +1122,8 @@ EXAMPLES = [
        tol="abs"),
     _E("gradient_descent_contraction", _TU, "wc_gradient_descent_contraction", "tight",
        {"L": 1, "mu": 0.1, "gamma": 1, "n": 1}, gen_gradient_descent_contraction,
-       "0 < mu < L, gamma in (0, 2/L] (docstring gives no range for gamma; this is the contraction range), n >= 1",
-       "cheap"),
+       "0 < mu < L, gamma > 0 (docstring gives no range for gamma; gen draws gamma in (0, 2/L], the contraction "
+       "range, and, with probability 0.15, in (2/L, 3/L)), n >= 1", "cheap", _FL),
 ]
 
 BY_NAME = {e["name"]: e for e in EXAMPLES}
